@@ -5,8 +5,11 @@ spec_op.h).  The general path's combiners are C01's subject; here:
   (1) dispatch is a function of the request (first match in chain order, cache is a sound memo),
       delegation down the chain, PIXMAN_DISABLE parsing, wholeops;
   (2) the SSE2 combiners (pixman-sse2.c) under trusted C models of the __builtin_ia32_* builtins;
-  (3) C fast paths of pixman-fast-path.c on small hand-built images.
-The evidence carries the list of every fast-path table entry of sse2 / fast with its status.
+  (3) C fast paths of pixman-fast-path.c on small hand-built images (fastpath.c: a8r8g8b8 / a8; fastpath_fmt.c: any
+      direct-colour format through the literal WIDEN / NARROW of spec_format.h);
+  (4) whole-row sse2_composite_* routines (sse2_composite.c): head pixel + one vector body + tail pixel at a fixed phase.
+Row jobs of (3b)/(4) are scheduled only if they have a measured passing run (MEASURED).
+The evidence carries the list of every fast-path table entry of sse2 / fast with its status and job names.
 """
 import os, re, json
 from vdriver import Job, PyJob, REPO, VERIF, sh, include_flags
@@ -56,6 +59,14 @@ def sse2_jobs(tier):
             if not quick:
                 js.append(sse2_job("tail", op, 0, ch, 1, 0, k=0, timeout=900))
             if quick and op not in ("OVER", "ADD", "IN"):
+                continue
+            if op in ("ATOP", "ATOP_REVERSE", "XOR") and ch < 3:
+                # colour channels of the two-product operators with a symbolic lane: > 1200 s each (undecided in a full thorough
+                # run).  Kept: channel 1 at the fixed lane 2 (bounded); channels 0 and 2 of the vector body of these three
+                # combiners are not scheduled (their head / tail pixel kernels are, every channel)
+                if ch == 1:
+                    js.append(sse2_job("body4.k2", op, 0, 1, 4, 0, k=2, timeout=3600, kind="bounded",
+                                       bound="4-pixel vector body, lane 2 only (every 3x128 bits of s, m, d)"))
                 continue
             js.append(sse2_job("body4", op, 0, ch, 4, 0, timeout=1200))
         if not quick or op == "OVER":
@@ -152,6 +163,12 @@ def fastpath_jobs(tier):
         for ch in chans:
             if quick and (fp in (3, 5) or ch in (0, 2) or (fp == 4 and ch == 3)):
                 continue
+            if fp == 3 and ch in (0, 1, 2):
+                # colour channels of over_n_8_8888 (in() followed by over(): two chained products per channel): with three
+                # symbolic x offsets > 3600 s each (undecided in a full thorough run); with fixed offsets (harness mode of
+                # fastfmt_jobs, fast.fast_composite_over_n_8_8888.x012.ch<c>) not finished after 7 CPU minutes when stopped:
+                # NOT scheduled.  Alpha channel and frame stay.
+                continue
             w = 3
             offs = [None]
             if fp == 4:  # memcpy path: fixed x offsets per query (see harness comment)
@@ -176,11 +193,13 @@ FPF = {
     "fast_composite_src_x888_8888":       ("SRC", 0, "x8r8g8b8", None, "a8r8g8b8", (0, 1, 2, 3), 0, (3,)),
     "fast_composite_in_8_8":              ("IN", 0, "a8", None, "a8", (3,), 0, (3,)),
     "fast_composite_in_n_8_8":            ("IN", 1, None, "a8", "a8", (3,), 0, ()),
-    "fast_composite_add_n_8_8":           ("ADD", 1, None, "a8", "a8", (3,), 0, (3,)),
+    "fast_composite_add_n_8_8":           ("ADD", 1, None, "a8", "a8", (3,), 0, ()),
     "fast_composite_over_8888_0565":      ("OVER", 0, "a8r8g8b8", None, "r5g6b5", (0, 1, 2), 0, (1,)),
     "fast_composite_over_n_8_0565":       ("OVER", 1, None, "a8", "r5g6b5", (0, 1, 2), 0, ()),
-    "fast_composite_add_0565_0565":       ("ADD", 0, "r5g6b5", None, "r5g6b5", (0, 1, 2), 0, (0,)),
+    "fast_composite_add_0565_0565":       ("ADD", 0, "r5g6b5", None, "r5g6b5", (0, 1, 2), 0, ()),
     "fast_composite_over_x888_8_8888":    ("OVER", 1, "x8r8g8b8", "a8", "a8r8g8b8", (0, 1, 2, 3), 0, ()),
+    # colour channels only: alpha channel and frame with symbolic offsets are jobs of fastpath_jobs (VC_FP=3)
+    "fast_composite_over_n_8_8888":       ("OVER", 1, None, "a8", "a8r8g8b8", (0, 1, 2), 0, ()),
     "fast_composite_over_n_8_0888":       ("OVER", 1, None, "a8", "r8g8b8", (0, 1, 2), 0, ()),
     "fast_composite_add_n_8888_8888_ca":  ("ADD", 2, None, "a8r8g8b8", "a8r8g8b8", (0, 1, 2, 3), 0, ()),
     "fast_composite_over_n_8888_8888_ca": ("OVER", 2, None, "a8r8g8b8", "a8r8g8b8", (0, 1, 2, 3), 0, ()),
@@ -189,16 +208,31 @@ FPF = {
     "fast_composite_over_n_1_8888":       ("OVER", 1, None, "a1", "a8r8g8b8", (0, 1, 2, 3), 30, ()),
     "fast_composite_over_n_1_0565":       ("OVER", 1, None, "a1", "r5g6b5", (0, 1, 2), 30, ()),
 }
+# routines registered for several genuinely different destination / source layouts: one set of jobs per layout,
+# job name fast.<routine>.<dest format>.ch<c>
+FPF_MULTI = {
+    "fast_composite_solid_fill": [("SRC", 0, None, None, f, ch, 30 if f == "a1" else 0, ()) for f, ch in
+                                  (("a8r8g8b8", (5,)), ("r5g6b5", (5,)), ("a8", (5,)), ("a1", (5,)))],
+    "fast_composite_src_memcpy": [("SRC", 0, f, None, f, ch, 0, ()) for f, ch in
+                                  (("a8r8g8b8", (5,)), ("b8g8r8a8", (5,)), ("r5g6b5", (5,)), ("x1r5g5b5", (5,)), ("r8g8b8", (5,)), ("a8", (5,)))],
+}
 FPF_TIMEOUT = {}
+# routines whose queries get FIXED x offsets (src, mask, dest): list of offset triples, one set of jobs each
+FPF_FIXX = {}
+FPF_FIXX_DEFAULT = [(0, 1, 2)]   # every masked routine (mode 1 / 2)
 
 
 def fastfmt_jobs(tier):
     js = []
     quick = tier == "quick"
     w = 3
-    for fn, (op, mode, sfmt, mfmt, dfmt, chans, xbase, qch) in FPF.items():
+    todo = [(fn, "", v) for fn, v in FPF.items()] + [(fn, "." + v[4], v) for fn, vs in FPF_MULTI.items() for v in vs]
+    for fn, tag, (op, mode, sfmt, mfmt, dfmt, chans, xbase, qch) in todo:
+      for fix in (FPF_FIXX.get(fn) or (FPF_FIXX_DEFAULT if mode and not xbase else [None])):
         for ch in tuple(chans) + (4,):
             if quick and ch not in qch:
+                continue
+            if fn == "fast_composite_over_n_8_8888" and ch == 4:
                 continue
             d = {"VC_FN": fn, "VC_OP": SPOP[op], "VC_MODE": mode, "VC_CH": ch, "VC_W": w, "VC_DFMT": dfmt,
                  "VC_SFMT": sfmt or "a8r8g8b8"}
@@ -208,12 +242,27 @@ def fastfmt_jobs(tier):
                 d["VC_MFMT"] = mfmt
             if xbase:
                 d["VC_XBASE"] = xbase
-            js.append(Job("fast.%s.ch%d" % (fn, ch), "C02/fastpath_fmt.c", defines=d, unwind=max(w + 6, 26 if dfmt == "r8g8b8" else 0, 66 if "a1" in (dfmt,) else 0),
-                          cbmc_flags=PC, kind="bounded", bound="width %d, height 1" % w, functions=[fn], extra_sources=RL,
-                          domain="%s %s, %s, %s: one row of %d pixels, x offsets of src/mask/dest symbolic (3 x 3 x 2 values%s), ghost pixel symbolic, every pixel value; %s"
-                                 % (op, sfmt or "solid", mfmt or "-", dfmt, w, ", 1-bpp rows start at bit %d..%d: the span crosses a 32-bit word" % (xbase, xbase + 2) if xbase else "",
-                                    "field of channel %d == NARROW (C01 spec (WIDEN src, WIDEN mask, WIDEN dest))" % ch if ch < 4 else "frame"),
-                          assumptions=(["%s: _pixman_image_get_solid replaced by a stub returning the symbolic colour" % fn] if sfmt is None else []),
+            xtag = ""
+            if fix and ch != 4:
+                d["VC_SX"], d["VC_MX"], d["VC_DX"] = fix
+                xtag = ".x%d%d%d" % fix
+            stubs = ["%s: _pixman_image_get_solid replaced by a stub returning the symbolic colour" % fn] if sfmt is None else []
+            if fn == "fast_composite_src_memcpy":
+                d["VC_OWN_MEMCPY"] = None
+                stubs.append("fast_composite_src_memcpy: memcpy is a byte loop written in the harness (CBMC 6.11's library model of memcpy gives a "
+                             "false alarm for a 12-byte copy between word arrays at symbolic offsets); the native replay runs the real memcpy")
+            if fn == "fast_composite_solid_fill":
+                stubs.append("fast_composite_solid_fill: pixman_fill replaced by a per-pixel store of the filler's low bpp bits (C19 covers pixman_fill)")
+            xdom = ("x offsets of src/mask/dest fixed at %d/%d/%d" % fix if xtag else
+                    "x offsets of src/mask/dest symbolic (3 x 3 x 2 values%s)" % (", 1-bpp rows start at bit %d..%d: the span crosses a 32-bit word" % (xbase, xbase + 2) if xbase else ""))
+            js.append(Job("fast.%s%s%s.ch%d" % (fn, tag, xtag, ch), "C02/fastpath_fmt.c", defines=d,
+                          unwind=max(w + 6, 26 if dfmt == "r8g8b8" else 0, 66 if "a1" in (dfmt,) else 0, 4 * w + 2 if fn == "fast_composite_src_memcpy" else 0),
+                          cbmc_flags=PC, kind="bounded", bound="width %d, height 1%s" % (w, ", x offsets fixed" if xtag else ""), functions=[fn], extra_sources=RL,
+                          domain="%s %s, %s, %s: one row of %d pixels, %s, ghost pixel symbolic, every pixel value; %s"
+                                 % (op, sfmt or "solid", mfmt or "-", dfmt, w, xdom,
+                                    "field of channel %d == NARROW (C01 spec (WIDEN src, WIDEN mask, WIDEN dest))" % ch if ch < 4 else
+                                    "frame" if ch == 4 else "all defined bits == NARROW_PIX (WIDEN_PIX (source)) (SRC: no arithmetic)"),
+                          assumptions=stubs,
                           timeout=FPF_TIMEOUT.get((fn, ch), 3600 if mode else 1800), min_props=2))
     return js
 
@@ -224,19 +273,20 @@ G32 = (6, 3, 1, 2, 12)        # 4-pixel body
 G32W = (18, 3, 1, 2, 24)      # 16-pixel body (src_x888_8888)
 G16 = (10, 7, 1, 2, 24)       # 8-pixel body
 G8 = (18, 15, 1, 2, 48)       # 16-pixel body
-G8A = (26, 11, 1, 2, 48)      # add_8_8: 1 byte head, combiner on 6 words at word phase 3 (1 + 4 + 1), 1 byte tail
+G8A = (30, 11, 1, 2, 48)      # add_8_8: 1 byte head, combiner on 7 words at word phase 3 (1 + 4 + 2), 1 byte tail; 29 bytes after the
+                              # head: (w & 0xfffc) = 28 differs from (w & 0xfff8) = 24 (a mutant of the tail offset survived width 26)
 # routine: (op, mode, source format | "solid", mask format | "solid" | None, destination format, channels, geometry, ghost pixels
 #           (None = symbolic), quick-tier channels)
 S2C = {
-    "sse2_composite_over_n_8888":         ("OVER", 0, "solid", None, "a8r8g8b8", (0, 1, 2, 3), G32, None, (3,)),
+    "sse2_composite_over_n_8888":         ("OVER", 0, "solid", None, "a8r8g8b8", (0, 1, 2, 3), G32, None, (1,)),
     "sse2_composite_over_8888_8888":      ("OVER", 0, "a8r8g8b8", None, "a8r8g8b8", (0, 1, 2, 3), G32, None, ()),
-    "sse2_composite_add_8888_8888":       ("ADD", 0, "a8r8g8b8", None, "a8r8g8b8", (0, 1, 2, 3), G32, None, (1,)),
+    "sse2_composite_add_8888_8888":       ("ADD", 0, "a8r8g8b8", None, "a8r8g8b8", (0, 1, 2, 3), G32, None, ()),
     "sse2_composite_add_n_8888":          ("ADD", 0, "solid", None, "a8r8g8b8", (0, 1, 2, 3), G32, None, ()),
-    "sse2_composite_add_8_8":             ("ADD", 0, "a8", None, "a8", (3,), G8A, None, (3,)),
+    "sse2_composite_add_8_8":             ("ADD", 0, "a8", None, "a8", (3,), G8A, None, ()),
     "sse2_composite_add_n_8":             ("ADD", 0, "solid", None, "a8", (3,), G8, None, ()),
-    "sse2_composite_in_8_8":              ("IN", 0, "a8", None, "a8", (3,), G8, None, ()),
-    "sse2_composite_in_n_8":              ("IN", 0, "solid", None, "a8", (3,), G8, None, ()),
-    "sse2_composite_src_x888_8888":       ("SRC", 0, "x8r8g8b8", None, "a8r8g8b8", (0, 1, 2, 3), G32W, None, (3,)),
+    "sse2_composite_in_8_8":              ("IN", 0, "a8", None, "a8", (3,), G8, (0, 8, 17), ()),
+    "sse2_composite_in_n_8":              ("IN", 0, "solid", None, "a8", (3,), G8, (0, 8, 17), ()),
+    "sse2_composite_src_x888_8888":       ("SRC", 0, "x8r8g8b8", None, "a8r8g8b8", (0, 1, 2, 3), G32W, None, ()),
     "sse2_composite_src_x888_0565":       ("SRC", 0, "x8r8g8b8", None, "r5g6b5", (0, 1, 2), G16, None, (1,)),
     "sse2_composite_over_n_0565":         ("OVER", 0, "solid", None, "r5g6b5", (0, 1, 2), G16, None, ()),
     "sse2_composite_over_8888_0565":      ("OVER", 0, "a8r8g8b8", None, "r5g6b5", (0, 1, 2), G16, None, ()),
@@ -244,8 +294,8 @@ S2C = {
     "sse2_composite_over_n_8_8888":       ("OVER", 1, "solid", "a8", "a8r8g8b8", (1, 3), G32, (0, 2, 5), ()),
     "sse2_composite_add_n_8_8888":        ("ADD", 1, "solid", "a8", "a8r8g8b8", (1, 3), G32, (0, 2, 5), ()),
     "sse2_composite_src_n_8_8888":        ("SRC", 1, "solid", "a8", "a8r8g8b8", (1, 3), G32, (0, 2, 5), ()),
-    "sse2_composite_add_n_8_8":           ("ADD", 1, "solid", "a8", "a8", (3,), G8, None, ()),
-    "sse2_composite_in_n_8_8":            ("IN", 1, "solid", "a8", "a8", (3,), G8, None, ()),
+    "sse2_composite_add_n_8_8":           ("ADD", 1, "solid", "a8", "a8", (3,), G8, (0, 8, 17), ()),
+    "sse2_composite_in_n_8_8":            ("IN", 1, "solid", "a8", "a8", (3,), G8, (0, 8, 17), ()),
     "sse2_composite_over_8888_8_8888":    ("OVER", 1, "a8r8g8b8", "a8", "a8r8g8b8", (1, 3), G32, (0, 2, 5), ()),
     "sse2_composite_over_x888_8_8888":    ("OVER", 1, "x8r8g8b8", "a8", "a8r8g8b8", (1, 3), G32, (0, 2, 5), ()),
     "sse2_composite_over_8888_n_8888":    ("OVER", 1, "a8r8g8b8", "solid", "a8r8g8b8", (1, 3), G32, (0, 2, 5), ()),
@@ -281,7 +331,7 @@ def sse2c_jobs(tier):
                 if fn in ("sse2_composite_add_n_8888", "sse2_composite_add_n_8", "sse2_composite_in_n_8"):
                     stubs.append("%s: pixman_fill (colour 0 / ~0 shortcut) replaced by a per-pixel store of the filler (C19 covers pixman_fill)" % fn)
                 js.append(Job("sse2c.%s%s.ch%d" % (fn, "" if k is None else ".k%d" % k, ch), "C02/sse2_composite.c", defines=d,
-                              unwind=row + 2, cbmc_flags=PC, kind="bounded",
+                              unwind=row + 2, cbmc_flags=PC, kind="bounded", object_bits=10,
                               bound="width %d, height 1, destination x %d (16-byte phase fixed: 1 head pixel, one vector body, 1 tail pixel), source x %d, mask x %d%s"
                                     % (w, dx, sx, mx, "" if k is None else ", ghost pixel %d" % k),
                               functions=[fn, "_pixman_implementation_create_sse2"], extra_sources=RL,
@@ -298,7 +348,27 @@ def scan_tables():
     out = {}
     proved_kernel = {"sse2_composite_over_8888_8888": "kernel proved (row = sse2_combine_over_u: kernel proved, row bounded)",
                      "sse2_composite_add_8888_8888": "kernel proved (row = sse2_combine_add_u kernels)"}
-    row_bounded = {FP[k][0] for k in FP if k != 4}
+    other = {"sse2_composite_copy_area": "C19 (sse2_blt: blt.sse2.* jobs of property C19)"}
+    # routine -> operand formats the row jobs use; only routines with at least one scheduled pixel (not only frame) job count
+    sched = scheduled_row_jobs()
+    fmts_of = {}
+    for k in FP:
+        if k != 4:
+            fmts_of[FP[k][0]] = {1: "a8r8g8b8, -, a8r8g8b8", 2: "a8, -, a8", 3: "solid, a8, a8r8g8b8", 5: "a8r8g8b8, -, a8r8g8b8"}[k]
+    for fn, v in FPF.items():
+        fmts_of[fn] = "%s, %s, %s" % (v[2] or "solid", v[3] or "-", v[4])
+    for fn, vs in FPF_MULTI.items():
+        fmts_of[fn] = "; ".join("%s, -, %s" % (v[2] or "solid", v[4]) for v in vs)
+    for fn, v in S2C.items():
+        fmts_of[fn] = "%s, %s, %s" % (v[2], v[3] or "-", v[4])
+    row_bounded = {}
+    harness_only = set()
+    for fn, fm in fmts_of.items():
+        names = sorted(sched.get(fn, []))
+        if any(not n.endswith(".ch4") for n in names):
+            row_bounded[fn] = (names, fm)
+        else:
+            harness_only.add(fn)
     for fname, table in (("pixman-sse2.c", "sse2_fast_paths"), ("pixman-fast-path.c", "c_fast_paths")):
         try:
             txt = open(os.path.join(REPO, "pixman", fname)).read()
@@ -314,13 +384,28 @@ def scan_tables():
                 continue
             macro = e.group(1)
             fn = args[-1] if macro.startswith("PIXMAN_STD") else macro + ":" + "_".join(a for a in args if a)
-            if fn in proved_kernel:
+            ent = {"entry": (macro + " " + ", ".join(args)).strip(), "routine": fn}
+            if fn in row_bounded:
+                names, fmts = row_bounded[fn]
+                st = (proved_kernel[fn] + "; " if fn in proved_kernel else "") + "row bounded"
+                ent["jobs"] = names
+                ent["checked_with_operands"] = fmts
+                mine = ", ".join("-" if a == "null" else a for a in args[1:4])
+                if mine not in fmts.split("; "):
+                    # same routine, same code path: the entry's formats differ from the checked ones only by the naming of the
+                    # colour channels (a8b8g8r8 / b5g6r5: the routine never looks at which 8-bit lane is red) or by an x channel
+                    # whose stored value the destination format ignores
+                    ent["note"] = "entry registers the same routine for %s: channel renaming / ignored x channel of the checked operands" % mine
+            elif fn in proved_kernel:
                 st = proved_kernel[fn]
-            elif fn in row_bounded:
-                st = "row bounded"
+            elif fn in other:
+                st = other[fn]
+            elif fn in harness_only:
+                st = "unverified (harness mode exists in fastpath_fmt.c / sse2_composite.c, no pixel job scheduled: no measured passing run)"
             else:
                 st = "unverified"
-            ents.append({"entry": (macro + " " + ", ".join(args)).strip(), "routine": fn, "status": st})
+            ent["status"] = st
+            ents.append(ent)
         out[table] = ents
     return out
 
@@ -338,7 +423,7 @@ def table_job():
             json.dump(t, f, indent=1)
         return obl
     return PyJob("tables.scan", fn, kind="bounded", bound="source-text scan, no semantic claim", functions=[], min_props=4,
-                 domain="every entry of sse2_fast_paths and c_fast_paths with status {kernel proved, row bounded, unverified}: evidence/C02_tables.json",
+                 domain="every entry of sse2_fast_paths and c_fast_paths with status {kernel proved, row bounded, C19, unverified}, the jobs and the operand formats they use: evidence/C02_tables.json",
                  timeout=60)
 
 
@@ -361,8 +446,60 @@ def selftest_job():
                  functions=[], min_props=15, domain="each C model of a __builtin_ia32_* builtin vs the real instruction", timeout=300)
 
 
+# Row jobs of fastfmt_jobs / sse2c_jobs that have a measured passing run on the unchanged tree: CPU seconds (cbmc + kissat,
+# measured while the machine was shared, so wall clock was 1-4x that).  ONLY these are scheduled (timeout = max (1200,
+# 8 x measured)); every other (routine, channel) combination the two generators can produce is a harness mode that exists
+# but has no measured run, is not scheduled and is not counted as covered in evidence/C02_tables.json.
+# C02_UNMEASURED=1 in the environment schedules all of them (exploration).
+MEASURED = {
+    "fast.fast_composite_src_x888_8888.ch0": 31, "fast.fast_composite_src_x888_8888.ch1": 31, "fast.fast_composite_src_x888_8888.ch2": 31,
+    "fast.fast_composite_src_x888_8888.ch3": 31, "fast.fast_composite_src_x888_8888.ch4": 31,
+    "fast.fast_composite_in_8_8.ch3": 58, "fast.fast_composite_in_8_8.ch4": 32,
+    "fast.fast_composite_in_n_8_8.ch4": 32,
+    "fast.fast_composite_add_n_8_8.x012.ch3": 60, "fast.fast_composite_add_n_8_8.ch4": 31,
+    "fast.fast_composite_over_8888_0565.ch1": 40,
+    "fast.fast_composite_add_0565_0565.ch0": 29,
+    "fast.fast_composite_add_1_1.ch3": 26, "fast.fast_composite_add_1_1.ch4": 27,
+    "fast.fast_composite_over_n_8_0888.ch4": 30,
+    "fast.fast_composite_solid_fill.a8r8g8b8.ch5": 28, "fast.fast_composite_solid_fill.a8r8g8b8.ch4": 26,
+    "fast.fast_composite_solid_fill.r5g6b5.ch5": 26, "fast.fast_composite_solid_fill.r5g6b5.ch4": 27,
+    "fast.fast_composite_solid_fill.a8.ch5": 26, "fast.fast_composite_solid_fill.a8.ch4": 26,
+    "fast.fast_composite_solid_fill.a1.ch5": 26, "fast.fast_composite_solid_fill.a1.ch4": 30,
+    "fast.fast_composite_src_memcpy.x1r5g5b5.ch5": 30, "fast.fast_composite_src_memcpy.x1r5g5b5.ch4": 28,
+    "fast.fast_composite_src_memcpy.r8g8b8.ch5": 41, "fast.fast_composite_src_memcpy.r8g8b8.ch4": 40,
+    "fast.fast_composite_add_n_8888_8888_ca.x012.ch1": 59,
+    "sse2c.sse2_composite_over_n_8888.ch3": 115, "sse2c.sse2_composite_over_n_8888.ch4": 41,
+    "sse2c.sse2_composite_add_8888_8888.ch1": 53, "sse2c.sse2_composite_add_8888_8888.ch4": 36,
+    "sse2c.sse2_composite_add_n_8.ch3": 82, "sse2c.sse2_composite_add_n_8.ch4": 50,
+    "sse2c.sse2_composite_in_8_8.ch4": 104,
+    "sse2c.sse2_composite_src_x888_8888.ch0": 111, "sse2c.sse2_composite_src_x888_8888.ch1": 116, "sse2c.sse2_composite_src_x888_8888.ch2": 117,
+    "sse2c.sse2_composite_src_x888_8888.ch3": 112, "sse2c.sse2_composite_src_x888_8888.ch4": 84,
+    "sse2c.sse2_composite_src_x888_0565.ch0": 74, "sse2c.sse2_composite_src_x888_0565.ch1": 75, "sse2c.sse2_composite_src_x888_0565.ch2": 75,
+    "sse2c.sse2_composite_src_x888_0565.ch4": 53,
+}
+
+
+def measured_only(js):
+    if os.environ.get("C02_UNMEASURED"):
+        return js
+    out = []
+    for j in js:
+        if j.name in MEASURED:
+            j.timeout = max(1200, int(8 * MEASURED[j.name]))
+            out.append(j)
+    return out
+
+
+def scheduled_row_jobs():
+    """names of the row jobs scheduled in the thorough tier, per routine"""
+    by = {}
+    for j in fastpath_jobs("thorough") + measured_only(fastfmt_jobs("thorough") + sse2c_jobs("thorough")):
+        by.setdefault(j.functions[0], []).append(j.name)
+    return by
+
+
 def jobs(tier):
-    js = dispatch_jobs(tier) + sse2_jobs(tier) + fastpath_jobs(tier) + fastfmt_jobs(tier) + sse2c_jobs(tier)
+    js = dispatch_jobs(tier) + sse2_jobs(tier) + fastpath_jobs(tier) + measured_only(fastfmt_jobs(tier) + sse2c_jobs(tier))
     js.append(table_job())
     if os.path.exists(os.path.join(VERIF, "harness", "C02", "models_selftest.c")):
         js.append(selftest_job())
@@ -371,16 +508,24 @@ def jobs(tier):
 
 META = {
     "level": "proof",
-    "trusted_base": ["spec/spec_un8.h + spec_op.h (C01 spec)", "models/sse2_models_combine.h: Intel SDM lane semantics of the SSE2/SSSE3 builtins",
+    "trusted_base": ["spec/spec_un8.h + spec_op.h (C01 spec)", "spec/spec_format.h (C10 literal format table, WIDEN / NARROW)",
+                     "models/sse2_models_combine.h: Intel SDM lane semantics of the SSE2/SSSE3 builtins",
                      "CBMC memory model: objects are 16-byte aligned (offset 0); natively aligned(16) buffers"],
     "assumptions": [
-        "A == B is decided as `A meets S and B meets S' with S the C01 spec; the general path's combiners are C01's obligations",
+        "A == B is decided as `A meets S and B meets S' with S the C01 spec composed with the C10 format codecs; the general path's combiners are C01's obligations",
         "dispatch proved on stub chains (2-3 implementations x <=3 symbolic entries); the real tables are only scanned textually (tables.scan)",
         "SSE2 masked / component-alpha kernels: only the subset listed in the thorough tier (each query 200-300 CPU s)",
+        "row jobs (fast.* / sse2c.*): one row (height 1), width 3 (C) or one head pixel + one vector body + one tail pixel at a fixed 16-byte phase (SSE2); "
+        "a routine registered for a8b8g8r8 / b5g6r5 / x-channel variants is checked with the a8r8g8b8 / r5g6b5 operands only (same code path, channel renaming)",
     ],
     "not_covered": ["MMX kernels (three inline-asm primitives need C bodies)", "SSSE3 bilinear fetcher", "sse2_combine_saturate_u (no C01 spec for SATURATE)",
-                    "sse2_composite_* whole-image functions except through their combiner kernels", "macro-generated scaled nearest/bilinear main loops",
-                    "pixman-x86.c CPU detection (cpuid inline asm)", "pixman_blt / pixman_fill (C19)",
-                    "fast_composite_src_memcpy (harness mode VC_FP=4 exists; CBMC's memcpy model gives a false alarm that does not replay natively)"],
-    "explanation": "per-entry status of sse2_fast_paths / c_fast_paths: evidence/C02_tables.json (written by job tables.scan)",
+                    "row jobs with a mask whose colour channels chain two products (OVER / IN with an a8 or component-alpha mask: fast_composite_over_n_8_8888 "
+                    "colour channels, over_n_8_0565, over_n_8_0888, over_x888_8_8888, in_n_8_8, over_n_8888_8888_ca, over_n_8888_0565_ca and their sse2_composite_* "
+                    "counterparts): harness modes exist (fastpath_fmt.c, sse2_composite.c; C02_UNMEASURED=1 schedules them) but no query finished in the time "
+                    "available (> 7 CPU minutes each with fixed x offsets, > 60 minutes with symbolic offsets) -> not scheduled, listed `unverified' in C02_tables.json",
+                    "vector body colour channels 0 and 2 of sse2_combine_{atop,atop_reverse,xor}_u (channel 1 at lane 2 and the alpha channel at every lane are checked)",
+                    "sse2_composite_over_pixbuf_*, sse2_composite_over_8888_8888_8888, every row of height > 1 (stride walk), widths beyond one vector body",
+                    "macro-generated scaled nearest/bilinear main loops",
+                    "pixman-x86.c CPU detection (cpuid inline asm)", "pixman_blt / pixman_fill (C19)"],
+    "explanation": "per-entry status of sse2_fast_paths / c_fast_paths with the names of the scheduled jobs: evidence/C02_tables.json (written by job tables.scan)",
 }
